@@ -59,7 +59,7 @@ def validate(ctx, obs, label):
 
 
 def params(tier):
-    return (6000, 1) if tier == "quick" else (0, 3)
+    return (6000, 1) if tier == "quick" else (0, 8)
 
 
 def run(ctx):
